@@ -22,6 +22,7 @@ from pyvc.registry import harness
 
 NAMES = ["a", "a_2", "b_", "class", "1x", "append"]
 SMALL_NAMES = ["a", "a_2", "class"]
+MID_NAMES = ["a", "a_2", "class", "b_"]
 _COUNTER = [0]
 
 
@@ -93,7 +94,7 @@ def arbitrary_state(n):
     nil = NamedItemList()
     items = []
     for i in range(n):
-        items.append(pick_item(f"pre{i}", items, SMALL_NAMES if n > 2 else None))
+        items.append(pick_item(f"pre{i}", items, SMALL_NAMES if n > 2 else (MID_NAMES if n == 2 else None)))
     D = {}
     order = H.pick("dict_order", ["list-order", "reversed"]) if n > 1 else "list-order"
     for it in (items if order == "list-order" else list(reversed(items))):
@@ -114,8 +115,11 @@ OPS = ["append", "insert", "extend", "remove", "pop", "clear", "copy", "copy.cop
 
 
 def _fam(tier, seed):
-    sizes = (0, 1, 2) if tier == "quick" else (0, 1, 2, 3)
-    return [{"op": op, "n": n} for op in OPS for n in sizes if not (n == 3 and op in ("extend", "insert"))]
+    if tier == "quick":
+        # n = 2 only where two pre-existing items matter for the operation (about 1.5 min per task)
+        return [{"op": op, "n": n} for op in OPS for n in (0, 1)] + \
+            [{"op": op, "n": 2} for op in ("remove", "pop", "insert", "copy", "deepcopy", "init")]
+    return [{"op": op, "n": n} for op in OPS for n in (0, 1, 2, 3) if not (n == 3 and op in ("extend", "insert", "append"))]
 
 
 @harness(props=["C16"], strength="B", family=_fam,
@@ -132,17 +136,18 @@ def operation_preserves_invariant(op, n):
     nil, items = arbitrary_state(n)
     model = list(items)  # what a plain list would hold
     other = None
+    argnames = None if n < 2 else SMALL_NAMES
     if op == "append":
-        x = pick_item("x", items)
+        x = pick_item("x", items, argnames)
         nil.append(x)
         model.append(x)
     elif op == "insert":
-        x = pick_item("x", items)
-        idx = H.pick("index", list(range(-n - 1, n + 2)))
+        x = pick_item("x", items, argnames)
+        idx = H.pick("index", sorted(set([-n - 1, -1, 0, 1, n, n + 1])))
         nil.insert(idx, x)
         model.insert(idx, x)
     elif op == "extend":
-        xs = [pick_item("x0", items)]
+        xs = [pick_item("x0", items, argnames)]
         if n < 2 and H.pick("two", [False, True]):
             xs.append(pick_item("x1", items + xs))
         if H.pick("as_iterator", [False, True]):
@@ -153,7 +158,7 @@ def operation_preserves_invariant(op, n):
     elif op == "remove":
         if n == 0:
             return
-        x = pick_item("x", items)
+        x = pick_item("x", items, argnames)
         try:
             nil.remove(x)
         except ValueError:
